@@ -21,7 +21,7 @@ def shapes(ck, tier, seed):
     r = lib.tlc("MC_Dialogue", timeout=200, constants={"MaxOps": "4", "Sim": "FALSE"}, workers=4)
     lib.tlc_must_pass(r, "dialogue shapes (small, exhaustive)")
     ck.add_tlc(r, "MC_Dialogue: prefix 0..4 x one operation of 13 x 3 endings, exhaustive")
-    n = 120 if tier == "quick" else 1200
+    n = 120 if tier == "quick" else 4000
     r2 = lib.tlc("MC_Dialogue", timeout=200, constants={"MaxOps": "4" if tier == "quick" else "10", "Sim": "TRUE"},
                  simulate=max(1, n // 8), depth=3, tlc_seed=seed, workers=8)
     lib.tlc_must_pass(r2, "dialogue shapes (simulate)")
@@ -118,7 +118,7 @@ def build(ck, tier, seed, silent_services=None):
     only = os.environ.get("VERIF_ONLY_SVC")
     if only:
         keys = [k for k in keys if k in only.split(",")]
-    per = 14 if tier == "quick" else 120
+    per = 14 if tier == "quick" else 400
     for key in keys:
         g = P.GRAMMAR[key]
         # core set (always): every token of the grammar, every raw class, truncation and repetition, right after the
